@@ -378,7 +378,8 @@ fn truthy(v: &RV) -> bool {
     }
 }
 
-enum StepErr {
+#[derive(Clone, Debug, PartialEq, Eq)]
+pub enum StepErr {
     Fail,
     Ood(&'static str),
 }
@@ -427,7 +428,7 @@ impl<'a> RefVm<'a> {
         i.to_bytes_le()[0]
     }
 
-    fn step(&mut self) -> Result<(), StepErr> {
+    pub fn step(&mut self) -> Result<(), StepErr> {
         let op = self.ops.get(self.pc).ok_or(StepErr::Fail)?.clone();
         let mut next = self.pc + 1;
         let m = two256();
